@@ -46,6 +46,12 @@ def stmt(r, d, labels):
     if k < 0.40:
         l = r.choice(labels)
         return '%s: %s' % (l, stmt(r, d - 1, labels))
+    if k < 0.42:
+        # declarations with linkage in inner scopes, hiding locals / parameters / globals of the same name (6.2.2p4)
+        n = r.choice(['v%d' % r.randrange(4), 'a', 'gi', 'f0', 'gS', 's'])
+        return r.choice(['{ extern int %s; %s; }' % (n, e()), '{ int %s(void); %s; }' % (n, e()), '{ extern int %s; { extern long %s; } }' % (n, n), 'int %s = 2; { extern int %s; gi = %s; }' % (n, n, n),
+                         '{ extern struct S %s; gi = %s.a; }' % (n, n), '{ static int %s; { extern int %s; %s++; } }' % (n, n, n), '{ extern int %s[]; gi = %s[1]; }' % (n, n),
+                         '{ extern int %s(int, ...); %s(1, 2.0, gS); }' % (n, n), '{ typedef int %s; { extern %s %s; } }' % (n, n, n)])
     if k < 0.45:
         t = r.choice(TYPES)
         n = 'v%d' % r.randrange(4)
